@@ -939,10 +939,9 @@ func main() {
 	hist.Main(&hist.Config{
 		Property: "C18",
 		Scopes: []*hist.Scope{
-			{Name: "setters", Tiers: "quick", Depth: 3, NewModel: func() hist.Model { return newModel(false) }},
-			{Name: "setters/full", Tiers: "thorough", Depth: 3, NewModel: func() hist.Model { return newModel(true) }},
-			{Name: "setters/full@4", Tiers: "thorough", Depth: 4, NewModel: func() hist.Model { return newModel(true) }},
-			{Name: "setters@5", Tiers: "thorough", Depth: 5, NewModel: func() hist.Model { return newModel(false) }},
+			{Name: "setters", Tiers: "quick", Depth: 3, NewModel: func() hist.Model { return newModel(true) }},
+			{Name: "setters@4", Tiers: "thorough", Depth: 4, NewModel: func() hist.Model { return newModel(true) }},
+			{Name: "setters/core@5", Tiers: "thorough", Depth: 5, NewModel: func() hist.Model { return newModel(false) }},
 		},
 		Rule: "breadth-first over all sequences of the eight configuration setters of the real Server (values: valid ones, every domain boundary of the statement, deprecated flags) x storage fault (none / k-th write of the call fails / storage down from the k-th write on); states deduplicated by the served configuration + default placement rule + mode manager; after every call: out-of-domain never accepted, rejected => every Get*Config and the default rule byte-identical, accepted => requested section served and no other section moved, and a fresh PersistOptions.Reload from the same storage equals the served configuration modulo the documented normalisation",
 		Assumptions: []string{
